@@ -243,9 +243,38 @@ class Verdict:
         self.known_hit = []
         self.drift = []
         self.known = [k for k in load_known_findings() if k.get("property") == pid and k.get("status") == "open"]
+        self._confirmations = 0
+        self.unconfirmed = 0
+
+    def _disturbed(self, run):
+        """Was the recorded observation disturbed from outside?  The recorded command is run once more, alone; if it does not
+        reproduce its own recorded output, nothing can be concluded from that output.  (delta inspects neighbouring processes
+        to guess who called it - a concurrently running `git show`/`git grep` of another check changes how it renders its
+        input - and a busy machine delays things.)  Runs whose input file is gone (stub callers) or that are driven by a
+        schedule are not repeatable this way and are taken as recorded."""
+        if not isinstance(run, dict) or "argv" not in run or run.get("timed_out") or "stdout_b64" not in run:
+            return False
+        env = run.get("env") or {}
+        if any(k.startswith("STUB_") or k.startswith("DELTA_VERIF") for k in env) or self._confirmations >= 30:
+            return False
+        self._confirmations += 1
+        try:
+            with _RETRY_LOCK:
+                time.sleep(0.2)
+                p = subprocess.run(run["argv"], input=base64.b64decode(run.get("stdin_b64", "")), env=base_env(env),
+                                   cwd=run.get("cwd") or None, timeout=180, stdout=subprocess.PIPE, stderr=subprocess.PIPE)
+        except (subprocess.TimeoutExpired, OSError):
+            return False
+        return p.stdout[:200000] != base64.b64decode(run["stdout_b64"]) or p.returncode != run.get("code")
 
     def violation(self, signature, what, payload):
         """signature: a stable abstract identification of the failing behaviour (string)."""
+        if not payload.get("no_confirm") and self._disturbed(payload.get("run")):
+            self.unconfirmed += 1
+            log(f"UNCONFIRMED property={self.pid} (the run does not reproduce its own output when repeated alone; dropped) {what[:160]}")
+            if self.unconfirmed > 20:
+                raise ToolError("more than 20 observations did not reproduce when repeated alone: the machine is too busy to observe delta")
+            return
         for k in self.known:
             if k.get("signature") == signature:
                 if signature not in [s for s, _ in self.known_hit]:
